@@ -27,6 +27,34 @@ fn jlists() -> Vec<Vec<usize>> {
     v
 }
 
+/// -J lists in which a directory occurs more than once (right-most occurrence decides): all
+/// sequences of length 2..=3 with a repetition, and the length-4 ones over two directories
+fn jlists_with_repeats() -> Vec<Vec<usize>> {
+    let mut v = Vec::new();
+    for a in 1..=3usize {
+        for b in 1..=3usize {
+            if a == b {
+                v.push(vec![a, b]);
+            }
+            for c in 1..=3usize {
+                if a == b || b == c || a == c {
+                    v.push(vec![a, b, c]);
+                }
+                if a != b {
+                    for d in [a, b] {
+                        if c == a || c == b {
+                            v.push(vec![a, b, c, d]);
+                        }
+                    }
+                }
+            }
+        }
+    }
+    v.sort();
+    v.dedup();
+    v
+}
+
 fn setup(root: &str, present: u32) {
     let _ = std::fs::remove_dir_all(root);
     for (i, d) in DIRS.iter().enumerate() {
@@ -56,6 +84,7 @@ fn layout_sweep(sh: &util::Shard, quick: bool) -> Report {
     let mut rep = Report::new();
     let root = cli::scratch("c13");
     let jl = jlists();
+    let jrep = jlists_with_repeats();
     let spellings: Vec<&str> = vec!["x.libsonnet", "./x.libsonnet", "sub/../x.libsonnet", "abs:D0", "abs:J2"];
     let kinds = ["import", "importstr", "importbin"];
     let mut idx = 0u64;
@@ -64,10 +93,14 @@ fn layout_sweep(sh: &util::Shard, quick: bool) -> Report {
             continue;
         }
         setup(&root, present);
-        for jlist in &jl {
+        for (li, jlist) in jl.iter().chain(jrep.iter()).enumerate() {
+            let repeated = li >= jl.len();
             for sp in &spellings {
                 for kind in kinds {
                     idx += 1;
+                    if repeated && (kind != "import" || *sp != "x.libsonnet") {
+                        continue; // lists with repetitions: plain spelling, import only
+                    }
                     if quick && kind != "import" && (idx % 3 != 0) {
                         continue;
                     }
@@ -261,7 +294,7 @@ pub fn run(ctx: &Ctx) -> i32 {
         ctx,
         LevelInfo {
             level: "fault_enumeration",
-            rule: "every subset of {importer's directory, J1, J2, J3} holding the file x all 16 ordered -J lists x 5 spellings (plain, ./, sub/../, two absolute) x import/importstr/importbin on the real binary against ref_import; load-once across spellings, symlinked files and directories; library's own directory first; std.thisFile; cycles; dangling symlink, directory, missing file (error located at the import expression); exact content for all 256 byte values and invalid UTF-8. distinct+nontrivial = distinct (layout, -J length, spelling, kind)".into(),
+            rule: "every subset of {importer's directory, J1, J2, J3} holding the file x all 16 ordered -J lists of distinct directories x 5 spellings (plain, ./, sub/../, two absolute) x import/importstr/importbin, plus every -J list of length <=3 (and the two-directory lists of length 4) in which a directory is repeated, on the real binary against ref_import; load-once across spellings, symlinked files and directories; library's own directory first; std.thisFile; cycles; dangling symlink, directory, missing file (error located at the import expression); exact content for all 256 byte values and invalid UTF-8. distinct+nontrivial = distinct (layout, -J length, spelling, kind)".into(),
             assumptions: vec!["unreadable files cannot be produced with permissions as root; a directory and a dangling symlink stand in for them".into()],
         },
         total,
